@@ -27,6 +27,21 @@ short = {
  'C03-c': ('`multiIP` cancels the pending DEL report under the PodID key', 'DEL then ADD of the same UID before the 3 s flush'),
  'C04-c': ('`PeekAvailable` folded into one loop', 'repeated ADD with idle addresses + map order'),
  'C05-c': ('`AllocIP` skips the record write when resources and config are unchanged', 'sandbox re-created (same UID, same address), late DEL of the old sandbox'),
+ 'C06-c': ('fast path of `Allocate` no longer tags the address under the lock', 'balancer tick between `Allocate` and its commit goroutine'),
+ 'C07-c': ('`Local.sync` queries metadata with the pool lock released', 'address committed between snapshot and application'),
+ 'C08-c': ('`syncWithAPI` guard tests the cloud status instead of the record status', 'interface recorded as Deleting, still attached, then a full sync'),
+ 'C09-c': ('`gcPods` drops the service lock around the rule cleanup', 'CNI request for the same pod parked on the lock'),
+ 'C10-c': ('`Remote.Allocate` replaces the time-out error by the last recorded reason', 'record stays Bind with a foreign UID for the whole wait'),
+ 'C11-c': ('`podLastSeen` stamped only when it is zero', 're-bind of a retained record, pod gone again before the next GC tick'),
+ 'C12-c': ('`getDatePath` caches by IP type only', 'two interfaces with different trunk flags in one ADD'),
+ 'C13-c': ('IPv6 from-pod rule gets the to-pod priority', 'two pods in sequence, or setup then teardown'),
+ 'C14-c': ('`DeriveGatewayIP` caches by network address without the prefix length', 'two subnets sharing a base address'),
+ 'C15-c': ('empty-selection guard moved into the preferred-index branch', 'NUMA hint >= 2 on a multi-card node'),
+ 'C16-c': ('`GenerateKey` reads the cache before taking the mutex', 'two same-parameter requests / a PutBack between lookup and lock'),
+ 'C17-c': ('looked-up vSwitch cached only when the flight was not shared', 'concurrent cold lookups, then Block'),
+ 'C18-c': ('previous-zone and vSwitch-zone requirements merged into one union', 're-created fixed-IP pod whose old zone lost its vSwitch'),
+ 'C19-c': ('flavor computed after the changed/unchanged snapshot', 'instance type changed, configuration unchanged'),
+ 'C20-c': ('chainer guard tests `edtSupport`', 'kernel with eBPF but without the EDT helper'),
 }
 rows = []
 for d in sorted(glob.glob('/verif/seeded/*')):
